@@ -23,9 +23,13 @@ DF_CTORS = {
     "Histogram": lambda df: df.hg_Histogram(4, -2.0, 2.0, "x"),
     "SparselyHistogram": lambda df: df.hg_SparselyHistogram(0.5, "x"),
     "SelectBin": lambda df: df.hg_Select("b", __import__("histogrammar").Bin(2, 0.0, 2.0, "y")),
+    # two-dimensional histograms: their specialised classes offer projections (read accessors that return aggregators)
+    "Sparse2D": lambda df: df.hg_SparselyBin(0.5, "x", __import__("histogrammar").SparselyBin(1.0, "y")),
+    "Bin2D": lambda df: df.hg_Bin(4, -2.0, 2.0, "x", __import__("histogrammar").Bin(3, -1.0, 2.0, "y")),
+    "Irr2D": lambda df: df.hg_IrregularlyBin([-1.0, 0.5], "x", __import__("histogrammar").IrregularlyBin([0.0, 1.0], "y")),
 }
 
-PURE = ("add", "mul", "zero", "copy", "read", "scribble", "ship", "new")
+PURE = ("add", "mul", "zero", "copy", "read", "scribble", "ship", "new", "immutable")
 
 
 class C06(PoolScenario):
@@ -35,7 +39,7 @@ class C06(PoolScenario):
     budgets = {"quick": 16000, "thorough": 300000}
     wall_caps = {"quick": 110, "thorough": 1500}
     ops = {"new": 1, "fill": 9, "fillnumpy": 3, "add": 5, "mul": 2.5, "zero": 1.5, "copy": 3, "read": 2, "scribble": 0.7,
-           "iadd": 2.5, "drop": 0.3, "ship": 1.5}
+           "iadd": 2.5, "drop": 0.3, "ship": 1.5, "immutable": 1.0}
     wires = ["pickle", "json", "jsonstr", "file"]
     rule = ("one run = one history over a pool in which every result of a pure operation (a+b, a*f, f*a, zero, copy, "
             "toJson, ==, hash, repr, accessors) joins the pool and both results and sources keep being mutated (fill, "
@@ -47,7 +51,7 @@ class C06(PoolScenario):
                    "observable change"]
     expected_faults = ["alias_mutation"]
     expected_probes = ["mutation_after_derivation", "default_argument_tree", "accessor_ctor", "default_quantity_bystander", "template_reused",
-                       "template_prefilled", "fill_after_template_reuse", "quantity_rewrapped"]
+                       "template_prefilled", "fill_after_template_reuse", "quantity_rewrapped", "projection_accessor"]
 
     def gen_workload(self, rng, tier, profile):
         self.spec_opts = {"p_default": 0.8} if profile == "defaults" else {}
@@ -107,6 +111,13 @@ class C06(PoolScenario):
                 nh += 1
                 extra.append({"op": "df_ctor", "kind": s.pick(sorted(DF_CTORS)), "rows": [s.randrange(n) for _ in range(s.randint(0, 6))],
                               "out": nh, "actor": s.pick(self.owners), "t": 1000 + i})
+            # projections of whatever two-dimensional histogram is around, later fills of projection and source
+            for i in range(s.randint(1, 4)):
+                nh += 1
+                extra.append({"op": "project", "obj": s.randint(0, 12), "which": s.pick(["x", "y", "y"]), "out": nh, "actor": s.pick(self.owners), "t": 2000 + i})
+            for i in range(s.randint(1, 6)):
+                extra.append({"op": "fillnumpy", "obj": 1001 + s.randrange(max(1, nh - 1000)), "rows": [s.randrange(n) for _ in range(s.randint(1, 4))], "weights": "one",
+                              "box": "frame", "actor": s.pick(self.owners), "t": 3000 + i, "any_tree": True})
             # interleave with the pool history
             steps = case["steps"]
             for e in extra:
@@ -127,6 +138,27 @@ class C06(PoolScenario):
             if o.ok:
                 w.put(st["out"], o.value, k=-1, via="ctor", mut=True)
                 w.bump("probe_default_quantity_bystander")
+            return o, set()
+        if st["op"] == "project":
+            from .pool import _walk_objs
+
+            hs = sorted(w.heap)
+            if not hs:
+                return None, set()
+            src = w.heap[hs[st["obj"] % len(hs)]]
+            name = "project_on_" + st["which"]
+            def offers(n_):
+                # the projections are mix-in methods of the classes specialize() swaps in (Select forwards unknown
+                # attributes to its cut and answers KeyError for the rest: not an accessor)
+                return any(name in vars(c) for c in type(n_).__mro__)
+
+            node = next((n_ for n_, _, _ in _walk_objs(src) if offers(n_)), None)
+            if node is None:
+                return None, set()
+            o = call(getattr(node, name))
+            if o.ok and hasattr(o.value, "toJson"):
+                w.put(st["out"], o.value, k=-1, via="accessor", mut=True)
+                w.bump("probe_projection_accessor")
             return o, set()
         if st["op"] == "template":
             o = call(specmod.build, st["tspec"])
@@ -219,7 +251,7 @@ class C06(PoolScenario):
                 if not o.ok:
                     w.bump("probe_op_failed_" + op)
                     # a failed += may leave its target half-merged (C10's business): it stays in the write set
-                if op in ("add", "mul", "zero", "copy") and o.ok:
+                if op in ("add", "mul", "zero", "copy", "immutable") and o.ok:
                     derived += 1
                 if st.get("after_template") and o.ok:
                     w.bump("probe_fill_after_template_reuse")
